@@ -147,16 +147,39 @@ func subC20(out string, seed uint64, tier string, arg string) {
 	if tier == "thorough" {
 		nl = 3000
 	}
+	// half of the lists hold names of one kind only (a rule about URIs is indifferent to the dNSNames between them: what can go
+	// wrong between two entries goes wrong between two entries the rule looks at)
+	byKind := map[string][]gnAtom{}
+	for _, a := range atoms {
+		if i := strings.Index(a.desc, ":"); i > 0 {
+			byKind[a.desc[:i]] = append(byKind[a.desc[:i]], a)
+		}
+	}
+	kindsL := []string{"uri", "dns", "email", "ip"}
 	for i := 0; i < nl; i++ {
 		n := 2 + rng.Intn(3)
+		pool := atoms
+		if i%2 == 0 {
+			if p := byKind[kindsL[(i/2)%len(kindsL)]]; len(p) > 1 {
+				pool = p
+			}
+		}
 		var names []*Node
 		var descs []string
 		for j := 0; j < n; j++ {
-			a := atoms[rng.Intn(len(atoms))]
+			a := pool[rng.Intn(len(pool))]
 			names = append(names, a.node())
 			descs = append(descs, a.desc)
 		}
 		build(names, descs)
+	}
+	// every ordered pair of URI atoms (the URI rules have the most cases per entry: opaque, relative, no host, bad host, …)
+	if us := byKind["uri"]; len(us) > 1 {
+		for _, a := range us {
+			for _, b := range us {
+				build([]*Node{a.node(), b.node()}, []string{a.desc, b.desc})
+			}
+		}
 	}
 	// ---- RFC / BR DNS-name rules: same certificate, CN empty / an IP / one of the SAN names
 	var dnsAtoms []string
